@@ -630,12 +630,12 @@ PROPS["C02"]["jobs"] = lambda: c02_jobs() + [j for j in tecmp_jobs()]
 def c01_jobs():
     jobs, seen = [], set()
 
-    def add(lens, types=None, maxb=64, minb=0, api=None, pkind=0, symids=1, variant="mapmodel", tier="quick", flg=0x33, ver=1, timeout=None, tflags=0, startc=-1):
+    def add(lens, types=None, maxb=64, minb=0, api=None, pkind=0, symids=1, variant="mapmodel", tier="quick", flg=0x33, ver=1, timeout=None, tflags=0, startc=-1, prior=0):
         d = enc_shape(lens, types, maxb, minb, api)
         if any(16 + l > maxb - 8 for l in lens):
             symids = 0   # reassembly looks the endpoint up again: a symbolic key makes the found entry (and its sizes) a symbolic merge
         nseg = max([-(-l // (maxb - 24)) for l in lens if 16 + l > maxb - 8] + [0])
-        d.update({"PKIND": pkind, "SYMIDS": symids, "FLG": flg, "VERB": ver, "TFLAGS": tflags, "STARTC": (startc if (startc >= 0 or nseg == 0 or (nseg <= 2 and len(lens) == 1)) else 65534)})
+        d.update({"PKIND": pkind, "SYMIDS": symids, "FLG": flg, "VERB": ver, "TFLAGS": tflags, "PRIOR": prior, "STARTC": (startc if (startc >= 0 or nseg == 0 or (nseg <= 2 and len(lens) == 1)) else 65534)})
         key = (tuple(sorted(d.items())), variant)
         if key in seen:
             return
@@ -654,6 +654,9 @@ def c01_jobs():
     ):
         add(lens, types, **kw)
     add([8, 8], None, symids=0, variant="real")
+    add([8], None, prior=1)
+    add([17], None, maxb=40, prior=1, startc=5)
+    add([8, 8], [1, 3], prior=1)
     add([17], None, maxb=40, symids=0, variant="real", startc=65535, tier="thorough", timeout=1500)
     # thorough: boundaries for every frame size, both min settings, flags/version variants, real hashtable on more shapes
     for mb in (25, 40, 64):
